@@ -1578,3 +1578,117 @@ Proof.
   split; [rewrite <- Hv; apply Forall2_map_eq; eapply Forall2_imp; [|exact G2]; intros a b (_ & A & _); exact A|].
   clear -G2. induction G2 as [|a b ? ? (_ & _ & A)]; constructor; assumption.
 Qed.
+
+Theorem window_round_WInv vs adv L Fs L' Fs' :
+  WInv vs L Fs -> Forall (fun tm => adv_ok (snd tm)) adv ->
+  window_round adv L Fs = Ok (L', Fs') -> WInv vs L' Fs'.
+Proof.
+  intros HI Hadv H. unfold window_round in H. ib H st Hst. destruct st as [La Fsa]. cbn [fst snd] in H.
+  eapply star_round_WInv; [|exact H]. eapply deliver_all_WInv; eassumption.
+Qed.
+
+Theorem window_rounds_WInv vs : forall advs L Fs L' Fs',
+  WInv vs L Fs -> Forall (Forall (fun tm => adv_ok (snd tm))) advs ->
+  window_rounds advs L Fs = Ok (L', Fs') -> WInv vs L' Fs'.
+Proof.
+  induction advs as [|adv rest IH]; intros L Fs L' Fs' HI Hadv H; cbn [window_rounds] in H.
+  - injection H as <- <-. exact HI.
+  - apply Forall_cons_iff in Hadv. destruct Hadv as [Ha Hr]. ib H x Hx. destruct x as [L1 Fs1].
+    cbn [fst snd] in H. eapply IH; [|exact Hr|exact H]. eapply window_round_WInv; eassumption.
+Qed.
+
+End Round.
+
+(* ------------------------------------------------------------------ *)
+(* the window theorem, stated on the fields of the model *)
+
+(* the start of a window: a leader L and followers Fs of its term that together are a
+   quorum of L's configuration, check_quorum on everywhere, queues empty, L has heard from
+   every member of Fs since its last check (or the next heartbeat comes early enough),
+   and L's heartbeat_timeout is below its own election_timeout and below the election
+   timeout and the randomized timeout of every member of Fs *)
+Definition window_start (L : raft) (Fs : list raft) : Prop :=
+  r_term L <> 0 /\ r_id L <> INVALID_ID /\ ~ In (r_id L) (map r_id Fs) /\
+  r_heartbeat_timeout L < r_election_timeout L /\
+  Quorum.has_quorum (incoming (t_conf (r_prs L))) (outgoing (t_conf (r_prs L)))
+                    (r_id L :: map r_id Fs) = true /\
+  r_state L = Leader /\ r_leader_id L = r_id L /\ r_check_quorum L = true /\
+  r_lead_transferee L = None /\
+  r_heartbeat_elapsed L < r_heartbeat_timeout L /\ r_election_elapsed L < r_election_timeout L /\
+  (forall id, In id (r_id L :: map r_id Fs) -> get_pr L id <> None) /\
+  r_msgs L = [] /\
+  ((forall id, In id (map r_id Fs) -> act L id) \/
+   r_heartbeat_timeout L + r_election_elapsed L < r_election_timeout L + r_heartbeat_elapsed L) /\
+  Forall (fun F =>
+    r_state F = Follower /\ r_term F = r_term L /\ r_leader_id F = r_id L /\
+    r_check_quorum F = true /\
+    r_heartbeat_timeout L < r_election_timeout F /\
+    r_heartbeat_timeout L < r_randomized_election_timeout F /\
+    r_msgs F = [] /\ r_election_elapsed F <= r_heartbeat_elapsed L) Fs.
+
+(* an adversarial schedule: one list of (target id, message) per round *)
+Definition adv_schedule (L : raft) (Fs : list raft) (advs : list (list (N * msg))) : Prop :=
+  Forall (Forall (fun tm => adv_ok (map r_id Fs) (r_id L) (r_term L) (snd tm))) advs.
+
+Lemma maps_Forall2 {A B C} (f : A -> B) (g : A -> C) : forall xs ys,
+  map f ys = map f xs -> map g ys = map g xs ->
+  Forall2 (fun x y => f y = f x /\ g y = g x) xs ys.
+Proof.
+  induction xs as [|x xs IH]; intros [|y ys] H1 H2; cbn in *; try discriminate; constructor.
+  - split; congruence.
+  - apply IH; congruence.
+Qed.
+
+Lemma window_start_WInv L Fs :
+  window_start L Fs ->
+  WInv (map r_id Fs) (r_id L) (r_term L) (r_heartbeat_timeout L) (r_election_timeout L)
+       (t_conf (r_prs L)) (map r_vote Fs) L Fs.
+Proof.
+  intros (S1 & S2 & S3 & S4 & S5 & S6 & S7 & S8 & S9 & S10 & S11 & S12 & S13 & S14 & S15).
+  split; [|split; [reflexivity|split; [reflexivity|]]].
+  - unfold LInv. repeat (split; [first [assumption|reflexivity]|]).
+    split; [rewrite S13; constructor|].
+    destruct S14 as [A|A]; [left; intros id Hid; left; apply A, Hid|right; exact A].
+  - eapply Forall_impl; [|exact S15]. intros F (F1 & F2 & F3 & F4 & F5 & F6 & F7 & F8).
+    unfold FInv. repeat (split; [assumption|]). split; [rewrite F7; constructor|].
+    split; [lia|right; exact F8].
+Qed.
+
+(* THE WINDOW THEOREM.  For any number of rounds and any adversarial schedule, if no
+   panic occurs: L is still the leader of its term, and every member of Fs is still a
+   follower of that term with leader L, the same id and the same vote, inside its lease *)
+Theorem window_rounds_safe L Fs advs L' Fs' :
+  window_start L Fs -> adv_schedule L Fs advs ->
+  window_rounds advs L Fs = Ok (L', Fs') ->
+  r_state L' = Leader /\ r_term L' = r_term L /\ r_leader_id L' = r_id L /\ r_id L' = r_id L /\
+  Forall2 (fun F F' =>
+    r_id F' = r_id F /\ r_vote F' = r_vote F /\ r_state F' = Follower /\
+    r_term F' = r_term L /\ r_leader_id F' = r_id L /\ r_check_quorum F' = true /\
+    r_election_elapsed F' < r_election_timeout F') Fs Fs'.
+Proof.
+  intros Hs Hadv H. pose proof Hs as (S1 & S2 & S3 & S4 & S5 & _).
+  pose proof (window_rounds_WInv (map r_id Fs) (r_id L) (r_term L) (r_heartbeat_timeout L)
+                (r_election_timeout L) (t_conf (r_prs L)) S1 S2 S3 S4 S5 (map r_vote Fs)
+                advs L Fs L' Fs' (window_start_WInv _ _ Hs) Hadv H) as (HL & Hid & Hv & HF).
+  destruct HL as (I1 & I2 & I3 & I4 & _).
+  repeat (split; [assumption|]).
+  pose proof (maps_Forall2 r_id r_vote Fs Fs' Hid Hv) as G.
+  clear -G HF. induction G as [|F F' Fs0 Fs0' (A & B) Hrest IH]; constructor.
+  - apply Forall_cons_iff in HF. destruct HF as [(F1 & F2 & F3 & F4 & F5 & F6 & F7 & F8 & F9) _].
+    repeat (split; [assumption|]). lia.
+  - apply IH. apply Forall_cons_iff in HF. apply HF.
+Qed.
+
+(* one round, for reference: the invariant itself *)
+Definition window_inv (L0 : raft) (Fs0 : list raft) (L : raft) (Fs : list raft) : Prop :=
+  WInv (map r_id Fs0) (r_id L0) (r_term L0) (r_heartbeat_timeout L0) (r_election_timeout L0)
+       (t_conf (r_prs L0)) (map r_vote Fs0) L Fs.
+
+Theorem window_round_inv L0 Fs0 adv L Fs L' Fs' :
+  window_start L0 Fs0 -> window_inv L0 Fs0 L Fs ->
+  Forall (fun tm => adv_ok (map r_id Fs0) (r_id L0) (r_term L0) (snd tm)) adv ->
+  window_round adv L Fs = Ok (L', Fs') -> window_inv L0 Fs0 L' Fs'.
+Proof.
+  intros (S1 & S2 & S3 & S4 & S5 & _) HI Hadv H.
+  eapply window_round_WInv; eassumption.
+Qed.
